@@ -135,7 +135,57 @@ def choice_nillable_cases():
            dict(k="K", _value_1=[dict(a=None, b="bee"), dict(z="zed"), dict(c=1)]), None)
 
 
+REDECL = ('<xs:schema xmlns:xs="http://www.w3.org/2001/XMLSchema" xmlns:t="urn:fam" targetNamespace="urn:fam" elementFormDefault="qualified">'
+          '<xs:element name="root" type="t:T1"/>'
+          '<xs:complexType name="T1"><xs:sequence><xs:element name="item" type="t:Base" maxOccurs="unbounded"/></xs:sequence></xs:complexType>'
+          '<xs:complexType name="Base"><xs:sequence><xs:element name="name" type="xs:string"/><xs:element name="v" type="xs:int"/></xs:sequence></xs:complexType>'
+          # the extension declares, in its own sequence, an element with the name of one the base already has (legal: the content
+          # model is base followed by extension)
+          '<xs:complexType name="Ext"><xs:complexContent><xs:extension base="t:Base"><xs:sequence><xs:element name="name" type="xs:string"/>'
+          '<xs:element name="extra" type="xs:string" minOccurs="0"/></xs:sequence></xs:extension></xs:complexContent></xs:complexType></xs:schema>')
+
+
+def redeclared_name_cases():
+    ref = ('<f:root xmlns:f="urn:fam" xmlns:xsi="%s"><f:item><f:name>base</f:name><f:v>1</f:v></f:item>'
+           '<f:item xsi:type="f:Ext"><f:name>first</f:name><f:v>2</f:v><f:name>second</f:name><f:extra>x</f:extra></f:item></f:root>' % XSI)
+    def build(zs):
+        def T(n):
+            return zs.get_type("{urn:fam}%s" % n)
+        return dict(item=[T("Base")(name="base", v=1), T("Ext")(name="first", v=2, name__1="second", extra="x")])
+    value = dict(item=[dict(__type__="Base", name="base", v=1), dict(__type__="Ext", name="first", v=2, name__1="second", extra="x")])
+    yield ("extension-redeclares-name", {"main.xsd": REDECL}, ref, value, build)
+    yield ("extension-redeclares-name:document", {"main.xsd": REDECL}, ref, None, None)
+
+
+def xsitype_prefix_cases():
+    """xsi:type on several siblings, the prefixes declared on the root, on the element itself, and re-bound on the element"""
+    ref = ('<f:root xmlns:f="urn:fam" xmlns:xsi="%s" xmlns:p="urn:elsewhere">'
+           '<f:item xsi:type="f:Wide"><f:a>w</f:a><f:w>W</f:w></f:item>'
+           '<f:item xmlns:q2="urn:fam" xsi:type="q2:Narrow" id="2"><f:a>n</f:a></f:item>'
+           '<f:item xmlns:p="urn:fam" xsi:type="p:NarrowPlus"><f:a>np</f:a><f:c>true</f:c></f:item>'
+           '<f:item><f:a>plain</f:a></f:item>'
+           '<f:item xmlns:f2="urn:fam" xsi:type="f2:Wide"><f:a>w2</f:a><f:b>0</f:b><f:w>W2</f:w></f:item></f:root>' % XSI)
+    yield ("xsitype-prefixes-per-sibling", {"main.xsd": RESTR}, ref, None, None)
+
+
+NILROUND = ('<xs:schema xmlns:xs="http://www.w3.org/2001/XMLSchema" xmlns:t="urn:fam" targetNamespace="urn:fam" elementFormDefault="qualified">'
+            '<xs:element name="root" type="t:T1"/>'
+            '<xs:complexType name="T1"><xs:sequence><xs:sequence minOccurs="%s" maxOccurs="unbounded"><xs:element name="n" type="xs:string" nillable="true"/>'
+            '<xs:element name="o" type="xs:int" minOccurs="0"/></xs:sequence><xs:element name="tail" type="xs:string" minOccurs="0"/></xs:sequence></xs:complexType></xs:schema>')
+
+
+def nil_round_cases():
+    """rounds of a repeated sequence that hold nothing but an xsi:nil member"""
+    X = ' xmlns:xsi="%s"' % XSI
+    for mn, body in (("1", '<f:n>x</f:n><f:o>1</f:o><f:n xsi:nil="true"/><f:n>y</f:n>'), ("1", '<f:n xsi:nil="true"/><f:tail>t</f:tail>'),
+                     ("2", '<f:n xsi:nil="true"/><f:n xsi:nil="true"/><f:tail>t</f:tail>'), ("0", '<f:n xsi:nil="true"/><f:n>z</f:n><f:o>0</f:o>')):
+        yield ("nil-only-round:min%s:%d" % (mn, len(body)), {"main.xsd": NILROUND % mn}, '<f:root xmlns:f="urn:fam"%s>%s</f:root>' % (X, body), None, None)
+
+
 def all_cases():
+    yield from redeclared_name_cases()
+    yield from xsitype_prefix_cases()
+    yield from nil_round_cases()
     yield from choice_nillable_cases()
     yield from include_forms_cases()
     yield from restriction_cases()
@@ -223,7 +273,10 @@ def check_case(label, docs, ref_text, value, build, prop):
                 except Exception as e:  # noqa
                     fails.append("the emitted XML cannot be decoded again (%s: %s)" % (type(e).__name__, e))
             return fails
-        kwargs = build(zs) if build else value
+        try:
+            kwargs = build(zs) if build else value
+        except Exception as e:  # noqa
+            return ["a conforming value is refused at construction: %s: %s" % (type(e).__name__, e)] if prop in ("C01", "C02") else []
         # render
         try:
             parent = etree.Element("p")
